@@ -293,6 +293,21 @@ Theorem C12_edge_and_border_grids_translate :
   derive_grid_sel sel M = gather zpt (shift (morg M) (rel_grid (mk M) (mps M))) (sel (mk M))).
 Proof. exact (conj unmasked_is_C10 (conj derive_grid_edge_translates (conj derive_grid_border_translates derive_grid_sel_spec))). Qed.
 
+(* the remaining grid-valued call sites: with C12_relative_forms and the theorems above, EVERY grid-valued entry point of the model
+   equals an origin-free closed form + origin (the subtracted grid also is the pixel-centre grid of its own re-based mask) *)
+Theorem C12_call_site_relative_forms :
+  (forall (M : @mask2d ROps), fst (mps M) <> 0 -> snd (mps M) <> 0 ->
+  derive_grid_all_false M = shift (morg M) (rel_grid (all_false (rows (mk M)) (cols (mk M))) (mps M))) /\
+  (forall (M : @mask2d ROps), fst (mps M) <> 0 -> snd (mps M) <> 0 -> forall bl : mask -> mask,
+  blurring_grid_from bl M = shift (morg M) (rel_grid (bl (mk M)) (mps M))) /\
+  (forall (M : @mask2d ROps), fst (mps M) <> 0 -> snd (mps M) <> 0 -> forall kh kw,
+  padded_grid_from M kh kw = shift (morg M) (rel_grid (all_false (rows (mk M) + kh - 1) (cols (mk M) + kw - 1)) (mps M))) /\
+  (forall (M : @mask2d ROps), fst (mps M) <> 0 -> snd (mps M) <> 0 -> forall off,
+  subtracted_grid M off = shift (psub (morg M) off) (rel_grid (mk M) (mps M)) /\ subtracted_grid M off = from_mask (subtracted_mask M off)) /\
+  (forall (ds : @imaging ROps), fst (mps (i_data ds)) <> 0 -> snd (mps (i_data ds)) <> 0 ->
+  dataset_grid ds = shift (morg (i_data ds)) (rel_grid (mk (i_data ds)) (mps (i_data ds)))).
+Proof. exact (conj x_derive_grid_all_false_spec (conj x_blurring_grid_from_spec (conj x_padded_grid_from_spec (conj x_subtracted_grid_spec x_dataset_grid_spec)))). Qed.
+
 (* the seven call sites as they were before the repairs (fixes/C12_*.diff, now committed in /repo): each violates the law
    with origin (0,0), d = (1,0) *)
 Theorem C12_dropped_origin_call_sites_refuted :
@@ -387,3 +402,4 @@ Print Assumptions C12_hilbert_relative_forms.
 Print Assumptions C12_radial_projection_any_angle.
 Print Assumptions C12_border_views_translate.
 Print Assumptions C12_edge_and_border_grids_translate.
+Print Assumptions C12_call_site_relative_forms.
